@@ -165,7 +165,7 @@ def find_cmp(fn, a, b, ops=("==", "!="), rel_pass=None):
         if not (fwd or rev):
             continue
         op = c["op"]
-        if op in ("==", "!="):
+        if op in ("==", "!=") and rel_pass is None:
             eq_true = (op == "==") != neg
             out.append(Guard(blk.id, "T" if eq_true else "F", blk.term["ln"], ex.show(c)))
         else:
